@@ -16,9 +16,15 @@ Theorem grid_model_is_what_the_source_says : (grid_translation_ok = true :> bool
      update_dimensions_4d_gen N fl ce eps s lo hi = update_dimensions N ce eps s lo hi /\
      update_dimensions_3d_gen N fl ce eps s lo hi = update_dimensions N ce eps s lo hi) /\
   (forall (T : Type) (N : Num T) (fl ce : T -> Z) (g : dims (T:=T)) (p : T * T * T), idx3_gen N fl ce g p = idx3 N fl g p) /\
-  (forall (T : Type) (g : dims (T:=T)) (i : Z * Z * Z), flat_gen g i = flat g i).
+  (forall (T : Type) (g : dims (T:=T)) (i : Z * Z * Z), flat_gen g i = flat g i) /\
+  (* get_neighborhood of both grids: the clamped block [i-1, i+2) per axis (x outer, z inner: checked by the translator) and the
+     id under which a visited voxel is read *)
+  (forall (n i : Z), nb_lo_gen i = nb_lo i /\ nb_hi_gen n i = nb_hi n i) /\
+  (forall (T : Type) (g : dims (T:=T)) (i : Z * Z * Z), flat_nb_gen g i = flat g i).
 Proof.
-  split; [reflexivity|]. split; [|split].
+  split; [reflexivity|]. split; [|split; [|split; [|split]]]; cycle 3.
+  - intros n i. split; reflexivity.
+  - intros T g i. destruct g as [[[? ?] ?] [[? ?] ?] ?], i as [[? ?] ?]. reflexivity.
   - intros T N fl ce eps s lo hi. destruct lo as [[? ?] ?], hi as [[? ?] ?]. split; reflexivity.
   - intros T N fl ce g p. destruct g as [[[? ?] ?] [[? ?] ?] ?], p as [[? ?] ?]. reflexivity.
   - intros T g i. destruct g as [[[? ?] ?] [[? ?] ?] ?], i as [[? ?] ?]. reflexivity.
